@@ -2977,3 +2977,83 @@ func ruleLeadingIntRepresentatives(w *World, r *Report, rule string) {
 	}
 	r.Check(len(bads) == 0, rule, key, w.pos(f.Pos()), `"" and "s" rejected; 0s, 7s, 12s, 120m read as 0, 7, 12, 120; 00s rejected`, "leadingInt "+first+": a duration string is accepted with a value that is not its arithmetic meaning, or a printed duration no longer parses")
 }
+
+// tableColumn: v is field k of the element a loop takes from a local table (a slice or array composite literal of
+// structs): returns the table's backing array and the values the literal puts into field k, row by row.
+func tableColumn(v ssa.Value) (*ssa.Alloc, []ssa.Value) {
+	var fld int
+	var elem ssa.Value
+	switch x := v.(type) {
+	case *ssa.Field:
+		fld, elem = x.Field, x.X
+	case *ssa.UnOp:
+		fa, ok := x.X.(*ssa.FieldAddr)
+		if !ok {
+			return nil, nil
+		}
+		fld, elem = fa.Field, fa.X
+	default:
+		return nil, nil
+	}
+	// elem: *IndexAddr(table, i), or IndexAddr itself (address form), possibly via a local copy
+	if u, ok := elem.(*ssa.UnOp); ok {
+		elem = u.X
+	}
+	if al, ok := elem.(*ssa.Alloc); ok {
+		// a per-iteration copy: its single store is the loaded element
+		var st *ssa.Store
+		n := 0
+		for _, s := range storesTo(al) {
+			st, n = s, n+1
+		}
+		if n != 1 {
+			return nil, nil
+		}
+		elem = st.Val
+		if u, ok := elem.(*ssa.UnOp); ok {
+			elem = u.X
+		}
+	}
+	ia, ok := elem.(*ssa.IndexAddr)
+	if !ok {
+		return nil, nil
+	}
+	base := ia.X
+	if sl, ok := base.(*ssa.Slice); ok {
+		base = sl.X
+	}
+	arr, ok := base.(*ssa.Alloc)
+	if !ok {
+		return nil, nil
+	}
+	rows := map[int64]ssa.Value{}
+	for _, ref := range *arr.Referrers() {
+		ria, ok := ref.(*ssa.IndexAddr)
+		if !ok {
+			continue
+		}
+		k, ok := constInt(ria.Index)
+		if !ok {
+			continue
+		}
+		for _, r2 := range *ria.Referrers() {
+			fa, ok := r2.(*ssa.FieldAddr)
+			if !ok || fa.Field != fld {
+				continue
+			}
+			for _, r3 := range *fa.Referrers() {
+				if st, ok := r3.(*ssa.Store); ok && st.Addr == ssa.Value(fa) {
+					rows[k] = st.Val
+				}
+			}
+		}
+	}
+	var out []ssa.Value
+	for i := int64(0); i < int64(len(rows)); i++ {
+		if rows[i] == nil {
+			return nil, nil
+		}
+		out = append(out, rows[i])
+	}
+	return arr, out
+}
